@@ -30,7 +30,7 @@ Example index_to_field_partial_example :
             SAssign [EField (xid "t") (of_string "b")] [ECall (xid "g") None (ATuple [])] ]
           (Some (LReturn [EField (xid "t") (of_string "b")])) /\
   run_chunk L51 40 [] ex_index = OutOk [] [RNum (to_bits (of_Z 1))].
-Proof. repeat split; vm_compute; reflexivity. Qed.
+Proof. split; [|split]; vm_compute; reflexivity. Qed.
 
 (** [while false do ext_a() end  repeat while nil do ext_b() end until true  ext_c()  return 1] *)
 Definition ex_while : block :=
@@ -44,7 +44,7 @@ Example remove_unused_while_partial_example :
   rule_remove_unused_while ex_while =
     Block [ SRepeat (Block [] None) ETrue; xcall0 "ext_c" ] (Some (LReturn [xnum 1])) /\
   run_chunk L51 40 [] ex_while = OutOk [EvCall (of_string "ext_c") []] [RNum (to_bits (of_Z 1))].
-Proof. repeat split; vm_compute; reflexivity. Qed.
+Proof. split; [|split]; vm_compute; reflexivity. Qed.
 
 (** [local function f(x) if false then ext_a() elseif x then ext_b() else ext_c() end end
      if true then f(nil) else ext_d() end
@@ -69,7 +69,7 @@ Example remove_unused_if_branch_partial_example :
             SDo (Block [SCall (ECall (xid "f") None (ATuple [ENil]))] None) ]
           (Some (LReturn [xnum 2])) /\
   run_chunk Luau 40 [] ex_if = OutOk [EvCall (of_string "ext_c") []] [RNum (to_bits (of_Z 2))].
-Proof. repeat split; vm_compute; reflexivity. Qed.
+Proof. split; [|split]; vm_compute; reflexivity. Qed.
 
 (** [local t = {}  function t:m(a) return self, a end  do end  do return t:m "s" end  ext_a()]:
     remove_method_definition, remove_function_call_parens, remove_empty_do and
@@ -88,8 +88,72 @@ Example unconditional_rules_example :
   rule_remove_function_call_parens ex_misc <> ex_misc /\
   rule_remove_empty_do ex_misc <> ex_misc /\
   rule_filter_after_early_return ex_misc <> ex_misc /\
-  run_chunk L51 40 [] ex_misc = OutOk [] [RTable [] false; RStr (of_string "s")] /\
+  run_chunk L51 40 [] ex_misc = OutOk [] [RTable [(RStr (of_string "m"), RFunc)] false; RStr (of_string "s")] /\
   run_chunk L51 40 []
     (rule_filter_after_early_return (rule_remove_empty_do (rule_remove_function_call_parens
-       (rule_remove_method_definition ex_misc)))) = OutOk [] [RTable [] false; RStr (of_string "s")].
-Proof. repeat split; try (vm_compute; discriminate); vm_compute; reflexivity. Qed.
+       (rule_remove_method_definition ex_misc)))) = OutOk [] [RTable [(RStr (of_string "m"), RFunc)] false; RStr (of_string "s")].
+Proof.
+  split; [vm_compute; discriminate|]. split; [vm_compute; discriminate|].
+  split; [vm_compute; discriminate|]. split; [vm_compute; discriminate|].
+  split; vm_compute; reflexivity.
+Qed.
+
+(** * closed constant expressions (Proof/LiftingRulesConst.v) *)
+From DL Require Import Proof.LiftingRulesConst.
+
+(** [local t = {["a" .. "b"] = 1 + 2 * 3}
+     while 1 > 2 do ext_a() end
+     if not (2 <= 1) then ext_b() end
+     return t["a" .. "b"], not (1 > 2), ("x" .. "y"), -(2 - 3)] *)
+Definition xstr (s : string) : expr := EString (of_string s).
+Definition ex_const : block :=
+  Block [ SLocal false [Param (of_string "t") None]
+            [ETable [TIndex (EBinary BConcat (xstr "a") (xstr "b"))
+                            (EBinary BAdd (xnum 1) (EBinary BMul (xnum 2) (xnum 3)))]];
+          SWhile (EBinary BGt (xnum 1) (xnum 2)) (Block [xcall0 "ext_a"] None);
+          SIf [SBranch (EUnary UNot (EBinary BLe (xnum 2) (xnum 1))) (Block [xcall0 "ext_b"] None)] None ]
+        (Some (LReturn [ EIndex (xid "t") (EBinary BConcat (xstr "a") (xstr "b"));
+                         EUnary UNot (EBinary BGt (xnum 1) (xnum 2));
+                         EParen (EBinary BConcat (xstr "x") (xstr "y"));
+                         EUnary UMinus (EBinary BSub (xnum 2) (xnum 3)) ])).
+
+Example const_partial_example :
+  rule_convert_index_to_field ex_const = rule_convert_index_to_field_const ex_const /\
+  rule_convert_index_to_field ex_const <> ex_const /\
+  rule_remove_unused_while ex_const = rule_remove_unused_while_const ex_const /\
+  rule_remove_unused_while ex_const <> ex_const /\
+  rule_remove_unused_if_branch ex_const = rule_remove_unused_if_branch_const ex_const /\
+  rule_remove_unused_if_branch ex_const <> ex_const /\
+  rule_compute_expression ex_const = rule_compute_expression_const ex_const /\
+  rule_compute_expression ex_const =
+    Block [ SLocal false [Param (of_string "t") None]
+              [ETable [TIndex (xstr "ab") (xnum 7)]];
+            SWhile EFalse (Block [xcall0 "ext_a"] None);
+            SIf [SBranch ETrue (Block [xcall0 "ext_b"] None)] None ]
+          (Some (LReturn [ EIndex (xid "t") (xstr "ab"); ETrue; EParen (xstr "xy"); xnum 1 ])) /\
+  run_chunk L51 40 [] ex_const =
+    OutOk [EvCall (of_string "ext_b") []]
+          [RNum (to_bits (of_Z 7)); RBool true; RStr (of_string "xy"); RNum (to_bits (of_Z 1))].
+Proof.
+  split; [vm_compute; reflexivity|]. split; [vm_compute; discriminate|].
+  split; [vm_compute; reflexivity|]. split; [vm_compute; discriminate|].
+  split; [vm_compute; reflexivity|]. split; [vm_compute; discriminate|].
+  split; [vm_compute; reflexivity|]. split; vm_compute; reflexivity.
+Qed.
+
+(** * compute_expression: no same-fuel statement for the rule as it is
+
+    [return 5 - 1e309] (the literal [1e309] is +infinity) completes with 6 units of fuel; the
+    rule folds it to the literal of minus infinity, [(-1)/0], which is two levels deeper and
+    needs 8.  (The restricted oracle [ev_const] leaves minus infinity alone.) *)
+From Coq Require Import Floats.SpecFloat.
+Definition ex_neg_inf : block :=
+  Block [] (Some (LReturn [EBinary BSub (xnum 5) (ENumber (NDec (to_bits (S754_infinity false)) None))])).
+
+Example compute_same_fuel_refuted :
+  rule_compute_expression ex_neg_inf =
+    Block [] (Some (LReturn [EBinary BDiv (EUnary UMinus (xnum 1)) (xnum 0)])) /\
+  run_chunk L51 6 [] ex_neg_inf = OutOk [] [RNum (to_bits (S754_infinity true))] /\
+  run_chunk L51 6 [] (rule_compute_expression ex_neg_inf) = OutFuel /\
+  run_chunk L51 8 [] (rule_compute_expression ex_neg_inf) = OutOk [] [RNum (to_bits (S754_infinity true))].
+Proof. split; [|split; [|split]]; vm_compute; reflexivity. Qed.
